@@ -69,7 +69,8 @@ def parseInst (n threads imb : String) (secs : List (List String)) (maxN : Nat) 
   let g : Graph := splitRows (indices.zip data) indptr
   if g.any (fun row => row.any (fun e => e.1 ≥ n) || !strictlyIncreasing (row.map (·.1))) then none
   if data.any (fun x => x.natAbs > 1000) then none
-  if w.length != n || w.any (fun x => x < 0 || x > 2199023255552) then none
+  if w.length != n || w.any (fun x => x < 0 || x > 2305843009213693952) then none
+  if w.sum ≥ 4611686018427387904 then none
   if parts.length != n || parts.any (fun p => p ≥ 1024) then none
   pure { n, threads, imb, g, w, parts }
 
@@ -116,18 +117,27 @@ def traceStr (passes : List (List (Nat × Event))) : String :=
   " ".intercalate (passes.zipIdx.map fun x =>
     " ".intercalate (("P" ++ toString (x.2 + 1)) :: x.1.reverse.map (fun e => evTok e.1 e.2)))
 
-/-- `Int.tdiv` agrees with the `f64` quotient the code evaluates for EVERY value
-`part_weights[p]` can take in a run (`0 ..= total weight`: the tracked weights are the true
-loads, `Inv2.loadAcct`), so the model's `thread_max_pws` are the code's at every pass. -/
-def floatOk (c : Cfg) (total : Nat) : Bool :=
-  if total ≤ 400000 then
-    (List.range (total + 1)).all fun x =>
-      floatShare c.maxPw x c.threadCount == some ((x : Int) + Int.tdiv (c.maxPw - x) c.threadCount)
-  else
-    -- too many values to enumerate: a-priori bound instead.  |max_pw - pw| < 2^47 and at most 8
-    -- tasks: the quotient has at least 6 fractional bits in f64, its fractional part is a multiple
-    -- of 1/T ≥ 1/8, so rounding cannot reach the next integer and truncation agrees with `tdiv`.
-    total < 17592186044416 && c.threadCount ≤ 8 && c.maxPw.natAbs < 87960930222080
+/-- Part weights at the start of a pass = loads of the partition at that moment
+(`Inv2.loadAcct` / `endPass_facts`), computed with arrays. -/
+def loadsArr (w : List Int) (parts : Array Nat) (k : Nat) : Array Int :=
+  (w.zip parts.toList).foldl (fun acc x => acc.modify x.2 (· + x.1)) (Array.replicate k 0)
+
+/-- Part stores of one pass (chronological order) applied to the partition. -/
+def applyStores (parts : Array Nat) (tr : List (Nat × Event)) : Array Nat :=
+  tr.foldl (fun p e => match e.2 with
+    | .partStore v q => p.setIfInBounds v q
+    | _ => p) parts
+
+/-- `Int.tdiv` agrees with the `f64` quotient the code evaluates for the `part_weights` of EVERY
+pass of this run (they are the loads of the partition at the start of the pass, recomputed here
+from the part stores of the trace), so the model's `thread_max_pws` are the code's throughout.
+`traces`: one list per pass, reverse chronological (as returned by `run`). -/
+def floatOkRun (c : Cfg) (w : List Int) (k : Nat) : Array Nat → List (List (Nat × Event)) → Bool
+  | _, [] => true
+  | parts, tr :: rest =>
+    (loadsArr w parts k).all (fun x =>
+      floatShare c.maxPw x c.threadCount == some (x + Int.tdiv (c.maxPw - x) c.threadCount))
+    && floatOkRun c w k (applyStores parts tr.reverse) rest
 
 /-- Sequential instance (one worker): `ok ids=… md=…`. -/
 def seqLine (i : Inst) : String :=
@@ -136,8 +146,10 @@ def seqLine (i : Inst) : String :=
   | none => "panic"
   | some maxPw =>
     let c := mkCfg i.g i.w i.parts maxPw 1
-    if !floatOk c i.w.sum.toNat then "skip float-division-differs" else
-    match runSeq i.g i.w i.parts maxPw 1 1000000000 100000 with
+    -- `runSeq … = (run c p₀ [] …).1`
+    let r := run c i.parts [] 1000000000 100000
+    if !floatOkRun c i.w pc i.parts.toArray r.2 then "skip float-division-differs" else
+    match r.1 with
     | .ok ids md => "ok ids=" ++ idsStr ids ++ " md=" ++ mdStr md
     | .panic => "panic"
     | .fuel => "fuel"
@@ -155,8 +167,9 @@ def handle (toks : List String) : String :=
       | none => "panic"
       | some maxPw =>
         let c := mkCfg i.g i.w i.parts maxPw i.threads
-        if !floatOk c i.w.sum.toNat then "skip float-division-differs" else
-        match run c i.parts scheds 1000000 10000 with
+        let r := run c i.parts scheds 1000000 10000
+        if !floatOkRun c i.w pc i.parts.toArray r.2 then "skip float-division-differs" else
+        match r with
         | (.ok ids md, tr) =>
           "ok T=" ++ toString c.threadCount ++ " ipt=" ++ toString c.ipt ++ " ids=" ++ idsStr ids ++
             " md=" ++ mdStr md ++ " tr=" ++ traceStr tr
@@ -179,8 +192,10 @@ def handle (toks : List String) : String :=
     match parseNat? n, parseNat? threads, parseImb imb, parseNat? rowlen, parseNat? seed, parseNat? k,
       parseNat? pshape, parseNat? wmode with
     | some n, some t, some _, some r, some sd, some k, some ps, some wm =>
-      if n < 1 || n > 200000 || t < 1 || t > 16 || !(shape == "grid" || shape == "rand4") || k < 1 || k > 4096
-          || r > 1000000 || ps > 5 || wm > 3 || sd ≥ 18446744073709551616 then "bad-op"
+      if n < 1 || n > 200000 || t < 1 || t > 16
+          || !(["grid", "rand4", "star", "dstar", "complete", "bip3", "wheel", "hubs"].contains shape)
+          || k < 1 || k > 4096 || r > 1000000 || ps > 5 || wm > 3 || sd ≥ 18446744073709551616
+          || (shape == "complete" && n > 128) || (shape == "bip3" && n > 4096) then "bad-op"
       else "skip large-n (oracle only)"
     | _, _, _, _, _, _, _, _ => "bad-op"
   | ["free", n, threads, imb] =>
